@@ -114,9 +114,10 @@ def call_inproc(datadir, blocks, max_size):
 
 
 class _Counter:
-    def __init__(self, crash_at):
+    def __init__(self, crash_at, fail_at=None):
         self.n = 0
         self.crash_at = crash_at
+        self.fail_at = fail_at
         self.ops = []
 
     def tick(self, op):
@@ -124,6 +125,9 @@ class _Counter:
         self.ops.append(op)
         if self.crash_at is not None and self.n == self.crash_at:
             os._exit(77)
+        if self.fail_at is not None and self.n == self.fail_at:
+            # an I/O fault instead of a crash: the operation fails with ENOSPC and nothing of it reaches the file
+            raise OSError(28, "No space left on device (injected)")
 
 
 class _FileProxy:
@@ -164,7 +168,7 @@ class _FileProxy:
         return iter(self._f)
 
 
-def call_forked(datadir, blocks, max_size, crash_at=None, count=False):
+def call_forked(datadir, blocks, max_size, crash_at=None, count=False, fail_at=None):
     """Run the call in a forked child.  crash_at=k: the child dies right before its k-th file
     operation under datadir.  Returns (status, ops) - status "ok" | "err:<Class>" | "crashed";
     ops = the operation names the child performed (only when it did not crash)."""
@@ -176,8 +180,8 @@ def call_forked(datadir, blocks, max_size, crash_at=None, count=False):
         code = 70
         try:
             os.close(r)
-            ctr = _Counter(crash_at)
-            if crash_at is not None or count:
+            ctr = _Counter(crash_at, fail_at)
+            if crash_at is not None or count or fail_at is not None:
                 real_open = builtins.open
                 root = os.path.realpath(datadir)
 
